@@ -101,7 +101,10 @@ def callall(e):
 
 # ---- printer -------------------------------------------------------------------------------------
 PRIMS = {"m": "m", "vector": "vector", "identity": "identity", "not": "not", "inc": "inc", "dec": "dec",
-         "add": "+", "lt": "<", "eq": "=", "conj": "conj"}
+         "add": "+", "lt": "<", "eq": "=", "conj": "conj",
+         # core functions marked ^:inline whose body mentions the parameter twice / never: an inlined call must
+         # still evaluate the argument exactly once
+         "truep": "true?", "falsep": "false?", "anyp": "any?", "peek": "peek"}
 
 
 def pv(v):
@@ -308,7 +311,9 @@ class Gen:
             if w == "add":
                 return prim("add", sub("int"), sub("int"))
             return prim(w, sub("int"))
-        w = r.choice(["vector", "vector", "lt", "eq", "not", "identity", "conj"])
+        w = r.choice(["vector", "vector", "lt", "eq", "not", "identity", "conj", "truep", "falsep", "anyp", "peek"])
+        if w == "peek":
+            return prim("peek", prim("vector", *[sub("any") for _ in range(r.randint(0, 2))]))
         if w == "vector":
             return prim("vector", *[sub("any") for _ in range(r.randint(0, 3))])
         if w == "lt":
@@ -454,6 +459,7 @@ def small_programs(max_nodes):
             for x in E(n - 1):
                 out.append({"t": "markw", "e": x})
                 out.append(prim("not", x))
+                out.append(prim("truep", x))
                 out.append(call(fn([], x)))
                 out.append(vec(x))
                 out.append(try_([x], [("Exception", "e", [c(K("h"))])], []))
